@@ -74,7 +74,7 @@ func (f *FieldUpdater) Merge(dst, src proto.Message) {
 
 	var writableMask fmutils.NestedMask
 	if f.writableFields != nil {
-		writableMask = fmutils.NestedMaskFromPaths(f.writableFields.Paths)
+		writableMask = fmutils.NestedMaskFromPaths(normalizedPaths(f.writableFields.Paths))
 	}
 
 	// only allow writing writable fields by resetting non-writable fields in src
@@ -95,7 +95,8 @@ func (f *FieldUpdater) Merge(dst, src proto.Message) {
 		return
 	}
 
-	nestedMask := fmutils.NestedMaskFromPaths(mask.GetPaths())
+	// normalized: a parent path next to one of its child paths means the parent path
+	nestedMask := fmutils.NestedMaskFromPaths(normalizedPaths(mask.GetPaths()))
 	nestedMask.Filter(src)
 	proto.Merge(dst, src)
 
@@ -103,7 +104,7 @@ func (f *FieldUpdater) Merge(dst, src proto.Message) {
 	pruneEmpty(dst, src, nestedMask)
 
 	if f.resetMask != nil {
-		fmutils.Prune(dst, f.resetMask.Paths)
+		fmutils.Prune(dst, normalizedPaths(f.resetMask.Paths))
 	}
 
 	return
